@@ -35,3 +35,18 @@ func lemmaSettingRoundTrip(x Setting) (y Setting, r *Reader, err error) {
 	err = y.Decode(r)
 	return
 }
+
+// lemmaBlockInfoRoundTrip: the canonical field-pair sequence written by Encode decodes to the same info.
+func lemmaBlockInfoRoundTrip(x BlockInfo) (y BlockInfo, r *Reader, err error) {
+	b := new(Buffer)
+	x.Encode(b)
+	r = b.Reader()
+	err = y.Decode(r)
+	return
+}
+
+// lemmaUvAtStable: if t agrees with s on its first n bytes, a varint image that lies inside
+// s[:n] is a varint image of the same value at the same place in t.  (The executor emits this
+// consequence of the uvAt axioms as a fact at every append; here it is proved from the axioms.)
+func lemmaUvAtStable(s, t []byte, p, n int, x uint64) {
+}
